@@ -113,7 +113,7 @@ META = {
     "C14": dict(text="Theorems: a taker trade consumes the abstract book (sorted by 53-bit price key, then id) as a prefix, all fills complete except possibly the last, each fill within one unit of the order's price, remainder keeps the price, little orders closed with exact refund, cancel exact and only once. The abstract book is compared with the real cached/lazily-loaded book after every operation of generated histories (adds, trades, cancels, commits, restarts).",
                 note=TB + "PARTIAL in one respect: rmi_spec/rdi_spec (Float.SetRat(q).Int() is floor or floor+1) is a hypothesis of the price theorem, validated on every sampled call by a monitor, not proved for Model/Float.v. Order expiry is exercised at node level only.",
                 technique="Coq proof (induction over the book) + differential refinement check against the real order caches + monitors"),
-    "C20": dict(text="Theorem: a proposal takes effect iff its support is strictly more than 2/3 of the present power (integers), at most one can, and the halt rule likewise; the real Blockchain decision functions are run on generated and boundary power/vote vectors (3v=2t±2, 10^40 magnitudes) through a verif accessor and compared with the model and with the integer inequality.",
+    "C20": dict(text="Theorem: a proposal takes effect iff its support is strictly more than 2/3 of the present power (integers), at most one can, and the halt rule likewise; the real Blockchain decision functions are run on generated and boundary power/vote vectors (3v=2t±2, 10^40 magnitudes) through a verif accessor and compared with the model and with the integer inequality. The table those functions read is modelled too (Model/PowerTable.v = calculatePowers): only validators recorded as having signed the last block and not being dropped are in it; an absent, missing or dropped validator changes neither the total nor any vote sum, whether or not it voted (C20_only_present_validators_count, C20_table_members, C20_halt_by_present_power); tie: model 23 and a monitor on a real chain whose blocks carry signed / absent / missing commit-info entries.",
                 note=TB + "Vote transactions (past heights, duplicate votes) are exercised by the ledger histories, not modelled here.",
                 technique="Coq proof (lia, induction over proposals) + differential + exact-arithmetic monitor"),
     "C19": dict(text="Theorems over unbounded Z for every stake vector: the per-block accrual conserves reward+fees, only present non-dropped validators accrue their floor share, dropped validators' rewards return to the pool, the remainder sent to total-slashed is never negative; PayRewardsV5Fix never pays more than accrued plus the locked-stake surplus it adds to the emission, its 'Negative remainder' panic is unreachable, and the split is 10%/10%/commission/bip-share with the property's literals. The model (EndBlock accrual and PayRewardsV5Fix transliterated) is run against the real node block by block: accumulated rewards after every block and the RewardEvents of every payout.",
